@@ -248,7 +248,7 @@ def verdict(ctx, pid, broken, res, verdicts, failing, corr_fail, corr_err, known
                "shrinking": "not shrunk: removing atoms would leave the stated family"}
         ctx.violation(rep, found_input=True)
         reported += 1
-    ctx.coverage["failing_members"] = [m["key"] for m in failing][:60]
+    ctx.coverage["failing_members"] = [m["key"] for m in failing]
     ctx.coverage["known_findings_matched"] = n_known
     if corr_err:
         broken.append({"stage": "correspond", "error": corr_err[0]})
